@@ -6,6 +6,7 @@ import (
 	"fmt"
 	"os"
 	"path/filepath"
+	"regexp"
 	"sort"
 	"strconv"
 	"strings"
@@ -401,6 +402,10 @@ func report(v *Verifier, prop, tier string, seed int64, verifDir string, reports
 	return 0
 }
 
+var splitSuffix = regexp.MustCompile(`(\.\d+)+$`)
+
+func baseLabel(name string) string { return splitSuffix.ReplaceAllString(name, "") }
+
 const preambleTail = "(declare-fun ringidx (Int Int Int) Int)\n"
 
 func round3(x float64) float64 { return float64(int64(x*1000+0.5)) / 1000 }
@@ -430,10 +435,12 @@ func checkBaseline(verifDir, prop string, results []*Result, reports []*FuncRepo
 	if json.Unmarshal(data, &base) != nil {
 		return nil
 	}
+	// names are compared without the ".N" suffixes of split conjunctions: which conjuncts survive simplification
+	// may change with harmless edits, the labelled clause itself must still be generated
 	have := map[string]bool{}
 	for _, r := range results {
 		if r != nil {
-			have[r.Name] = true
+			have[baseLabel(r.Name)] = true
 		}
 	}
 	unsupported := map[string]bool{}
@@ -443,10 +450,13 @@ func checkBaseline(verifDir, prop string, results []*Result, reports []*FuncRepo
 		}
 	}
 	var missing []string
+	seenMissing := map[string]bool{}
 	for _, n := range base[prop] {
-		if have[n] {
+		n = baseLabel(n)
+		if have[n] || seenMissing[n] {
 			continue
 		}
+		seenMissing[n] = true
 		fn := n
 		if i := strings.Index(n, "/"); i >= 0 {
 			fn = n[:i]
